@@ -241,6 +241,27 @@ let () = reg "fmtdec" (fun args ->
      | _ -> "BAD-FORMAT")
   | _ -> "BAD")
 
+(* ---------------- saturating counts (Counts.v) ---------------- *)
+let n_of_decimal (s : Stdlib.String.t) : n =
+  match read_dec (List.init (Stdlib.String.length s) (fun k -> n_of_int (Char.code s.[k]))) with
+  | Some (v, _) -> v
+  | None -> failwith ("bad number " ^ s)
+let decimal_of_n (v : n) : Stdlib.String.t =
+  Stdlib.String.concat "" (List.map (fun d -> Stdlib.String.make 1 (Char.chr (int_of_n d))) (print_dec v))
+(* counts TOKENS : a nested program  "5 ( 1000 3 ( 2 7 ) ) 4"  -> "<saturating count as the code computes it> <exact count>" *)
+let () = reg "counts" (fun args ->
+  let rec parse toks =
+    match toks with
+    | [] -> ([], [])
+    | ")" :: rest -> ([], rest)
+    | "(" :: r :: rest ->
+      let (body, rest') = parse rest in
+      let (more, rest'') = parse rest' in
+      (Repeat (n_of_decimal r, body) :: more, rest'')
+    | t :: rest -> let (more, rest') = parse rest in (Op (n_of_decimal t) :: more, rest') in
+  let (prog, _) = parse args in
+  decimal_of_n (sat_block prog) ^ " " ^ decimal_of_n (exact_block prog))
+
 let () =
   (try
      while true do
